@@ -102,6 +102,15 @@ PROPS = {
                     "four squares, PrimeSqrt, ModSqrt: not modelled; checked on exhaustive small domains against their defining equations and brute force (exploration, not proof)",
                     "FastMod termination within the iteration budget: finite-domain theorem (p < 130, x < 3000) + correspondence"],
     },
+    "C20": {
+        "suite": "C20", "ref_sample": 20, "race": True,
+        "trusted": ["Go memory model: sync/atomic.AddUint64 and channel operations in a select are atomic steps; the Go race detector (happens-before, reports only races that occur in the runs made)",
+                    "crypto/aes (keystream recomputed independently by the harness)"],
+        "assumptions": ["fewer than 2^64 keystream blocks are drawn in a process lifetime (cprng_wraps shows the bound is needed)"],
+        "partial": ["data-race freedom is a property of the Go runtime's memory accesses, which no executable Gallina model exhibits: it is decided by the race detector over the stress runs (exploration over the schedules that occur), not by a theorem",
+                    "the theorems cover the logic: block reservation (disjoint, contiguous) and channel hand-off (single consumer) under every interleaving of their atomic steps",
+                    "parallel key generation and key-proof construction are exercised under the race detector by suites C16/C17 in the thorough tier"],
+    },
     "C15": {
         "suite": "C15",
         "mismatch_is_violation": True,   # the Coq definition is the property's reference
